@@ -648,4 +648,87 @@ Proof.
     rewrite Q1, Q2, Q3, Q4. cbn [length Z.of_nat]. rewrite !Z.eqb_refl. reflexivity.
 Qed.
 
+(* ---- syn_pre is an invariant of every trace from vsock_new ---- *)
+Lemma syn_pre_new mk cfg (s0 : vsock) :
+  vsock_new cci mk cfg = Some s0 -> 0 <= vc_max_retx cfg -> syn_pre cfg s0.
+Proof.
+  unfold vsock_new. intros H H0.
+  destruct (match (if vc_incoming cfg then None else _) with Some r => _ | None => _ end); [|discriminate].
+  injection H as <-. unfold syn_pre. cbn [v_opts o_max_retx v_state].
+  split; [reflexivity|]. split; [exact H0|]. intros k Hk. destruct (vc_incoming cfg); discriminate.
+Qed.
+
+Lemma vstep_nonpoll_state (s : vsock) o :
+  (forall sc, o <> VoPoll sc) -> v_state (vstep_state cci s o) = v_state s.
+Proof.
+  intro Hn. unfold vstep_state. destruct o; cbn [vstep].
+  - reflexivity.
+  - reflexivity.
+  - exfalso. eapply Hn; reflexivity.
+  - destruct (v_inbox_closed s); reflexivity.
+  - reflexivity.
+  - destruct (writer_dropped _); [|destruct (poll_write _ _) as [[tx1 r] w]]; reflexivity.
+  - destruct (writer_dropped _); [|destruct (poll_flush _) as [[tx1 r] w]]; reflexivity.
+  - destruct (writer_dropped _); [|destruct (poll_shutdown _) as [[tx1 r] w]]; reflexivity.
+  - destruct (reader_dropped _); [|destruct (rx_read _ _) as [[rx1 r] w]]; reflexivity.
+  - destruct (reader_dropped _); [|destruct (rx_drop_reader _) as [rx1 w]]; reflexivity.
+  - destruct (drop_writer _) as [tx1 w]; reflexivity.
+Qed.
+
+Lemma syn_pre_vstep cfg (s : vsock) o : syn_pre cfg s -> syn_pre cfg (vstep_state cci s o).
+Proof.
+  intros (Pm & P0 & Pk). destruct (vstep_keeps cci s o) as (Ko & _).
+  split; [rewrite Ko; exact Pm|]. split; [exact P0|].
+  assert (Hnp : (forall sc, o <> VoPoll sc) -> forall k, v_state (vstep_state cci s o) = SynAckSent k ->
+                1 <= k <= vc_max_retx cfg).
+  { intros Hn k Hk. rewrite (vstep_nonpoll_state s o Hn) in Hk. apply Pk. exact Hk. }
+  destruct o; try (apply Hnp; intros sc; discriminate). clear Hnp.
+  unfold vstep_state. cbn [vstep].
+  destruct (poll cci (VSockRec.set_sends s script)) as [s' r] eqn:E. cbn [fst].
+  apply poll_SY in E. destruct E as (_ & E). unfold syn_hs, syn_due, syn_sent, syn_kept, syn_k0 in E.
+  rewrite Pm in E. intros k Hk.
+  destruct (v_state s) as [|k0| | | | |] eqn:Es; try (rewrite Hk in E; discriminate).
+  - destruct (Z.eqb_spec 0 (vc_max_retx cfg)) as [Hm|Hm].
+    + destruct E as (_ & E1 & _). congruence.
+    + destruct E as [(_ & E)|(E1 & _)]; [|congruence]. rewrite Hk in E. destruct E as [-> _]. lia.
+  - specialize (Pk k0 eq_refl).
+    destruct (timer_expired _ _).
+    + destruct (Z.eqb_spec k0 (vc_max_retx cfg)) as [Hm|Hm].
+      * destruct E as (_ & E1 & _). rewrite Hk in E1. injection E1 as ->. exact Pk.
+      * destruct E as [(_ & E)|(E1 & _)].
+        -- rewrite Hk in E. destruct E as [-> _]. lia.
+        -- rewrite Hk in E1. injection E1 as ->. exact Pk.
+    + unfold syn_rel in E. rewrite Hk, Es in E. destruct E as [E _]. injection E as ->. exact Pk.
+Qed.
+
+(* ================================================================== along every trace *)
+Theorem c17_reset_ok_trace : forall cfg ops (s : vsock),
+  forallb (c17_reset_ok cfg) (ftrace cci s ops) = true.
+Proof.
+  intros cfg ops s. apply (ftrace_forallb cci (fun _ => True)); auto.
+  intros s0 o _. apply c17_reset_ok_step.
+Qed.
+
+Theorem c17_fin_number_step_ok_trace : forall cfg ops (s : vsock),
+  forallb (c17_fin_number_step_ok cfg) (ftrace cci s ops) = true.
+Proof.
+  intros cfg ops s. apply (ftrace_forallb cci (fun _ => True)); auto.
+  intros s0 o _. apply c17_fin_number_step_ok_step.
+Qed.
+
+Theorem c17_synack_ok_trace_pre : forall cfg ops (s : vsock),
+  syn_pre cfg s -> forallb (c17_synack_ok cfg) (ftrace cci s ops) = true.
+Proof.
+  intros cfg. apply (ftrace_forallb cci (syn_pre cfg)).
+  - intros s o H. apply c17_synack_ok_step. exact H.
+  - apply syn_pre_vstep.
+Qed.
+
+Theorem c17_synack_ok_trace : forall mk cfg (s0 : vsock) ops,
+  vsock_new cci mk cfg = Some s0 -> 0 <= vc_max_retx cfg ->
+  forallb (c17_synack_ok cfg) (ftrace cci s0 ops) = true.
+Proof.
+  intros mk cfg s0 ops Hn H0. apply c17_synack_ok_trace_pre. eapply syn_pre_new; eauto.
+Qed.
+
 End WithCC.
